@@ -98,6 +98,14 @@ class World(object):
             A = range(4) if "a" in names else [r["a"]]
             B = range(4) if "b" in names else [r["b"]]
             return set(itertools.product(A, B))
+        if kind == "freewith":
+            # free-standing inline call on a subset of the fields; the inline constraint names a field that
+            # is NOT passed (it acts as a constant) and the non-random x
+            names = op[1]
+            A = range(4) if "a" in names else [r["a"]]
+            B = range(4) if "b" in names else [r["b"]]
+            f = {"a<b": lambda a, b: a < b, "a!=b;a>=x": lambda a, b: a != b and a >= r["x"], "b>a": lambda a, b: b > a}[op[2]]
+            return set((a, b) for a in A for b in B if f(a, b))
         A = range(4) if r["mode_a"] else [r["a"]]
         B = range(4)
         extra = (lambda a, b: True)
@@ -164,6 +172,21 @@ class World(object):
                     else:
                         it.b < it.a
             out = common.outcome(f)
+        elif k == "freewith":
+            with vsc.raw_mode():
+                fl = [getattr(o, n) for n in op[1]]
+                fa, fb, fx = o.a, o.b, o.x
+
+            def f():
+                with vsc.randomize_with(*fl, randstate=rs):
+                    if op[2] == "a<b":
+                        fa < fb
+                    elif op[2] == "b>a":
+                        fb > fa
+                    else:
+                        fa != fb
+                        fa >= fx
+            out = common.outcome(f)
         else:
             with vsc.raw_mode():
                 fl = [getattr(o, n) for n in op[1]]
@@ -211,9 +234,9 @@ def enabled_ops(w):
         can_call = False
     if can_call:
         ops += [["rand"], ["with", "a==1"], ["with", "b==3"], ["with", "b<a"]]
-    ops += [["free", ["b"]]]
+    ops += [["free", ["b"]], ["freewith", ["b"], "b>a"]]
     if r["mode_a"]:
-        ops += [["free", ["a"]], ["free", ["a", "b"]]]
+        ops += [["free", ["a"]], ["free", ["a", "b"]], ["freewith", ["a"], "a<b"], ["freewith", ["a"], "a!=b;a>=x"]]
     return ops
 
 
@@ -223,7 +246,7 @@ def check_call(variant, hist, op, bound=2):
     w0 = replay_hist(variant, hist)
     exp = w0.expected(op)
     r0 = dict(w0.ref)
-    if op[0] == "free":
+    if op[0] in ("free", "freewith"):
         random_now = set(op[1])
     else:
         random_now = {"b"} | ({"a"} if r0["mode_a"] else set())
@@ -300,7 +323,7 @@ def expand(variant, hist):
     cnt = {"executions": 0, "rand_steps": 0, "env_transitions": 0, "api_ops": 0}
     for op in enabled_ops(w):
         cnt["api_ops"] += 1
-        if op[0] in ("rand", "with", "free"):
+        if op[0] in ("rand", "with", "free", "freewith"):
             v, c = check_call(variant, hist, op)
             viol += v
             for k, n in c.items():
